@@ -47,6 +47,9 @@ func main() {
 		case "verify":
 			verifyChild()
 			return
+		case "inspect":
+			inspectChild()
+			return
 		case "plan":
 			planDump()
 			return
@@ -120,7 +123,9 @@ func verifyChild() {
 		data, _ := json.Marshal(res)
 		_, _ = out.Write(append(data, '\n'))
 		_ = out.Sync()
-		_ = os.RemoveAll(img.Dir)
+		if os.Getenv("VERIF_C07_KEEP") == "" {
+			_ = os.RemoveAll(img.Dir)
+		}
 		if res.Note["panicked"] != "" {
 			// lindb's process-wide singletons may be in any state now: let the parent start a fresh process
 			os.Exit(4)
